@@ -52,7 +52,7 @@ def make_run(g, seed):
         else:
             kind = rng.choice(["apply", "apply", "map"])
             st = {"op": "spawn", "p": 0, "r": lab, "kind": kind, "fk": "sync", "sc": [{"g": 1}],
-                  "ecb": rng.choice([None, "s", "a"])}
+                  "ecb": rng.choice([None, "s", "s", "a"])}
             if kind == "apply":
                 st["num"] = num
             else:
@@ -76,6 +76,11 @@ def make_run(g, seed):
         steps.append({"op": "idle"})
     else:
         steps.append({"op": "run", "n": rng.choice([1, 2, 3])})
+    if rng.random() < 0.25:
+        # re-entrant access: read (and maybe assign) pool_size from inside an end callback
+        steps.append({"op": "size_get", "p": 0, "at": ["ecb", rng.choice([1, 1, 2, total or 1])]})
+        if rng.random() < 0.5:
+            steps.append({"op": "size_set", "p": 0, "v": new, "at": ["ecb", max(1, total)]})
     steps.append({"op": "size_get", "p": 0})
     steps.append({"op": "size_set", "p": 0, "v": new})
     steps.append({"op": "size_get", "p": 0})
